@@ -17,6 +17,7 @@ PROP = {  # substring of the commit subject -> property whose check must catch t
  "trim/trimStart/trimEnd replaced lone surrogates": "C06", "toLowerCase/toUpperCase (and their locale variants)": "C06",
  "sorts a standard array in place": "C07",
  "global+sticky match/replace on the fast path": "C20",
+ "split with a RegExp emitted an extra": "C20",
  "copyWithin did not clamp": "C17", "set(arrayLike)": "C17", "ignored the match limit": "C20", "carried into the sign": "C12",
 }
 log = subprocess.run("git -C /repo log --format='%h %s' --grep='^fix:'", shell=True, capture_output=True, text=True).stdout.splitlines()
